@@ -259,7 +259,7 @@ def concat_case(ctx, kind, frames, axis, union, index, columns, fill, as_generat
 def random_concat_cases(ctx):
     import static_frame as sf
     rng = ctx.rng
-    n = ctx.n(500, 12000)
+    n = ctx.n(500, 8000)
     for _ in range(n):
         axis = rng.choice((0, 1))
         union = rng.random() < 0.6
@@ -318,7 +318,7 @@ def layout_cases(ctx):
     block layout of each: the strategy (block / reblock / column) is decided by the layouts alone."""
     import static_frame as sf
     rng = ctx.rng
-    patterns = ['iii', 'iif', 'fii', 'ifi'] if ctx.tier == 'quick' else [''.join(p) for p in itertools.product('ifU', repeat=3)] + ['ii', 'if', 'i', 'iiii', 'iiff']
+    patterns = ['iii', 'iif', 'ifi'] if ctx.tier == 'quick' else [''.join(p) for p in itertools.product('if', repeat=3)] + ['iUU', 'UUi', 'ii', 'if', 'i', 'iiii', 'iiff']
     zoo_frames = []
     for pat in patterns:
         for layout in zoo.layouts_for(dtypes_of(pat)):
@@ -327,7 +327,7 @@ def layout_cases(ctx):
     pairs = [(x, y) for x in zoo_frames for y in zoo_frames if len(x[0]) == len(y[0])]
     if ctx.tier != 'quick':
         trip = [(x, y, z) for x in zoo_frames for y in zoo_frames for z in zoo_frames if len(x[0]) == len(y[0]) == len(z[0]) == 3]
-        pairs = pairs + rng.sample(trip, min(len(trip), ctx.n(0, 6000)))
+        pairs = pairs + rng.sample(trip, min(len(trip), ctx.n(0, 3000)))
     for combo in pairs:
         frames = []
         pos = 0
@@ -345,7 +345,7 @@ def layout_cases(ctx):
 def series_input_cases(ctx):
     import static_frame as sf
     rng = ctx.rng
-    for _ in range(ctx.n(60, 1500)):
+    for _ in range(ctx.n(60, 1000)):
         axis = rng.choice((0, 1))
         union = rng.random() < 0.6
         k = rng.choice((1, 2, 2, 3))
@@ -412,7 +412,7 @@ def gen_series_list(ctx, rng, k, unique):
 def series_concat_cases(ctx):
     import static_frame as sf
     rng = ctx.rng
-    for _ in range(ctx.n(150, 4000)):
+    for _ in range(ctx.n(150, 2500)):
         k = rng.choice((0, 1, 2, 2, 3, 4))
         malformed = rng.random() < 0.15
         ss = gen_series_list(ctx, rng, k, unique=not malformed)
@@ -452,7 +452,7 @@ def gen_keys(rng, k, dup):
 def items_cases(ctx):
     import static_frame as sf
     rng = ctx.rng
-    for _ in range(ctx.n(150, 4000)):
+    for _ in range(ctx.n(150, 2500)):
         axis = rng.choice((0, 1))
         union = rng.random() < 0.6
         k = rng.choice((0, 1, 2, 2, 3, 3))
@@ -490,7 +490,7 @@ def items_cases(ctx):
                    {'call': 'sf.Frame.from_concat_items', 'axis': axis, 'union': union, 'fill_value': repr(fill), 'keys': keys,
                     'inputs': [frame_desc(f) for f in frames], 'observed': frame_desc(out) if ok else lit.err_class(out)},
                    m=f'MV_concat_items_ok {args}', s=f'SV_concat_items_ok {args}', tags=tags, nontrivial=k >= 2)
-    for _ in range(ctx.n(100, 3000)):
+    for _ in range(ctx.n(100, 2000)):
         k = rng.choice((0, 1, 2, 2, 3, 3))
         dup = rng.random() < 0.1
         keys = gen_keys(rng, k, dup)
@@ -587,7 +587,7 @@ def overlay_case(ctx, kind, frames, union, index, columns, as_generator=False):
 def overlay_cases(ctx):
     import static_frame as sf
     rng = ctx.rng
-    for _ in range(ctx.n(300, 8000)):
+    for _ in range(ctx.n(300, 5000)):
         union = rng.random() < 0.7
         k = rng.choice((1, 2, 2, 3, 3, 4))
         pool = POOLS[rng.choice(('str', 'int'))]
@@ -600,7 +600,7 @@ def overlay_cases(ctx):
         columns = rng.sample(pool[:5], rng.randint(1, 4)) if rng.random() < 0.12 else None
         ctx.count(f'overlay:index-{imode}', f'overlay:columns-{cmode}')
         yield overlay_case(ctx, 'api:frame.from_overlay', frames, union, index, columns, as_generator=rng.random() < 0.2)
-    for _ in range(ctx.n(200, 5000)):
+    for _ in range(ctx.n(200, 3000)):
         union = rng.random() < 0.7
         k = rng.choice((1, 2, 2, 3, 3, 4))
         pool = POOLS[rng.choice(('str', 'int'))]
@@ -644,8 +644,40 @@ def witness_cases(ctx):
     yield overlay_case(ctx, 'witness', [a, b], True, None, ['r'])                           # columns disjoint, rows shared: TypeError
 
 
+# ----------------------------------------------------------------------------- kernel: the set operations on labels
+def set_kernel_cases(ctx):
+    """container_util.index_many_set (-> util.ufunc_set_iter) called directly on EVERY pair of duplicate-free label lists over three
+    labels (plus 300 sampled triples in quick; every triple, and every pair over four labels, in thorough), union and intersection,
+    int and str labels."""
+    import static_frame as sf
+    from static_frame.core.container_util import index_many_set
+    def arrangements(pool):
+        out = []
+        for n in range(len(pool) + 1):
+            out.extend(itertools.permutations(pool, n))
+        return [list(x) for x in out]
+    for pool_kind, pool in (('int', [0, 1, 2]), ('str', ['a', 'b', 'c'])):
+        arr = arrangements(pool)
+        combos = [c for c in itertools.product(arr, repeat=2)]
+        triples = [c for c in itertools.product(arr, repeat=3)]
+        combos += triples if ctx.tier != 'quick' else ctx.rng.sample(triples, 300)
+        if ctx.tier != 'quick' and pool_kind == 'int':
+            arr4 = arrangements([0, 1, 2, 3])
+            combos += [c for c in itertools.product(arr4, repeat=2)]
+        for lists in combos:
+            for union in (True, False):
+                out = index_many_set([mk_index(l, POOLS[pool_kind]) for l in lists], sf.Index, union).values.tolist()
+                args = f'{lit.b(union)} {lit.lst([lit.vlist(l) for l in lists])} {lit.vlist(out)}'
+                ctx.count('set:union' if union else 'set:intersection')
+                yield Case('kernel:index_many_set',
+                           {'call': 'static_frame.core.container_util.index_many_set', 'union': union, 'labels': [list(l) for l in lists], 'observed': out},
+                           m=f'MV_many_set_ok {args}', s=f'SV_many_set_ok {args}', tags={'kernel': 'index_many_set'},
+                           nontrivial=len({tuple(l) for l in lists}) > 1)
+
+
 def cases(ctx):
     yield from witness_cases(ctx)
+    yield from set_kernel_cases(ctx)
     yield from layout_cases(ctx)
     yield from random_concat_cases(ctx)
     yield from series_input_cases(ctx)
